@@ -3,6 +3,7 @@ module verif/harness
 go 1.26.0
 
 require (
+	golang.org/x/tools v0.44.1-0.20260420230617-19499e7caabc
 	honnef.co/go/tools v0.0.0
 	pgregory.net/rapid v1.3.0
 )
@@ -10,7 +11,8 @@ require (
 require (
 	golang.org/x/exp v0.0.0-20231110203233-9a3e6036ecaa // indirect
 	golang.org/x/exp/typeparams v0.0.0-20231108232855-2478ac86f678 // indirect
-	golang.org/x/tools v0.44.1-0.20260420230617-19499e7caabc // indirect
+	golang.org/x/mod v0.35.0 // indirect
+	golang.org/x/sync v0.20.0 // indirect
 )
 
 replace honnef.co/go/tools => /repo
